@@ -69,3 +69,29 @@ def harvested_sizes(lo=64, hi=8 * 1024 * 1024):
                         found.add(v2)
     _CACHE = sorted(n for n in found if 2 <= n <= 64 * 1024 * 1024)
     return [n for n in _CACHE if lo <= n <= hi]
+
+
+_IDS = None
+
+
+def harvested_identifiers():
+    """Parameter names of the functions and methods of pydiffx's reader, writer and object model (as the code stands now):
+    candidates for option keys that mean something inside the implementation."""
+    global _IDS
+    if _IDS is not None:
+        return _IDS
+    import re
+    names = set()
+    root = os.path.join(lib.REPO, 'python', 'pydiffx')
+    for rel in ('reader.py', 'writer.py', 'dom/reader.py', 'dom/writer.py', 'dom/objects.py', 'utils/text.py'):
+        try:
+            tree = ast.parse(open(os.path.join(root, rel), encoding='utf-8').read())
+        except Exception:
+            continue
+        for node in ast.walk(tree):
+            if isinstance(node, (ast.FunctionDef, ast.AsyncFunctionDef)):
+                a = node.args
+                for arg in list(a.args) + list(a.kwonlyargs) + ([a.vararg] if a.vararg else []) + ([a.kwarg] if a.kwarg else []):
+                    names.add(arg.arg)
+    _IDS = sorted(n for n in names if re.fullmatch(r'[A-Za-z][A-Za-z0-9_-]*', n))
+    return _IDS
